@@ -3,6 +3,22 @@ use std::fs::{File, OpenOptions};
 use std::io::{Read, Write};
 use std::path::Path;
 
+/// `write_file_if_changed` for generated files. The file is replaced
+/// atomically: a build that dies while writing leaves the old file (or none),
+/// never a truncated one that the cache and build info of the previous build
+/// would still vouch for.
+pub fn write_output_if_changed<T: AsRef<Path>>(path: T, data: &[u8]) -> Result<bool> {
+    if let Ok(mut file) = File::open(path.as_ref()) {
+        let mut content = Vec::new();
+        if file.read_to_end(&mut content).is_ok() && content == data {
+            return Ok(false);
+        }
+    }
+
+    veryl_path::atomic_write(path.as_ref(), data).into_diagnostic()?;
+    Ok(true)
+}
+
 pub fn write_file_if_changed<T: AsRef<Path>>(path: T, data: &[u8]) -> Result<bool> {
     if let Ok(mut file) = File::open(path.as_ref()) {
         let mut content = Vec::new();
